@@ -144,7 +144,8 @@ class Interp:
             d = self.dec[self.pos]
         else:
             can_t = solver.feasible(self.pc + [cond])
-            can_f = solver.feasible(self.pc + [z3.Not(cond)])
+            # the path condition itself is feasible (it was when the last decision was taken), so if `cond` cannot hold its negation can
+            can_f = solver.feasible(self.pc + [z3.Not(cond)]) if can_t else True
             if can_t and can_f:
                 d = True
                 self.work.append(self.dec[: self.pos] + [False])
@@ -164,32 +165,38 @@ class Interp:
 
     def split_values(self, term, limit=64):
         """Case split on a symbolic string/int whose path condition leaves finitely many (<= limit) values.
-        Returns the concrete value on this path (forking one path per value), or None when the domain is not finite."""
-        vals, blocks = [], []
-        while len(vals) <= limit:
-            r, m, _ = solver.check(self.pc + blocks, timeout_ms=3000, want_model=True)
-            if r == "unsat":
-                break
-            if r != "sat":
+        Returns the concrete value on this path (forking one path per value), or None when the domain is not finite.
+        String equalities are emitted as regex memberships (keeps the path condition in the pure InRe fragment)."""
+        is_str = term.sort() == z3.StringSort()
+        eq = (lambda v: z3.InRe(term, z3.Re(v))) if is_str else (lambda v: term == v)
+        py = lambda v: v.as_string() if z3.is_string_value(v) else v.as_long()
+        key = (term.get_id(), tuple(c.get_id() for c in self.pc))
+        cache = self.__dict__.setdefault("_split_cache", {})
+        if key not in cache:
+            vals, blocks = [], []
+            cache[key] = (None, term)  # (keeps the term alive so that its id is not reused)
+            while len(vals) <= limit:
+                r, m, _ = solver.check(self.pc + blocks, timeout_ms=5000, want_model=True)
+                if r == "unsat":
+                    break
+                if r != "sat":
+                    return None
+                v = m.eval(term, model_completion=True)
+                vals.append(v)
+                blocks.append(z3.Not(eq(v)))
+            else:
                 return None
-            v = m.eval(term, model_completion=True)
-            vals.append(v)
-            blocks.append(term != v)
-        else:
-            return None
-        if len(vals) > limit or not vals:
+            if len(vals) > limit or not vals:
+                return None
+            cache[key] = (vals, term, list(self.pc))
+        vals = cache[key][0]
+        if vals is None:
             return None
         for v in vals[:-1]:
-            if self.branch(term == v):
-                return v.as_string() if z3.is_string_value(v) else v.as_long()
-        self.pc.append(term == vals[-1])
-        v = vals[-1]
-        return v.as_string() if z3.is_string_value(v) else v.as_long()
-
-    def require(self, cond, exc):
-        """Builtin precondition: the path on which it fails raises ``exc`` (a native exception instance)."""
-        if not self.branch(cond):
-            raise PyRaise(exc)
+            if self.branch(eq(v)):
+                return py(v)
+        self.pc.append(eq(vals[-1]))
+        return py(vals[-1])
 
     def event(self, *e):
         self.events.append(e + (self.stack[-1] if self.stack else None,))
@@ -293,7 +300,7 @@ class Interp:
         if isinstance(v, SInt):
             return self.branch(v.t != 0)
         if isinstance(v, SStr):
-            return self.branch(z3.Length(v.t) > 0)
+            return self.branch(z3.InRe(v.t, z3.Plus(z3.AllChar(z3.ReSort(z3.StringSort())))))  # non-empty, as a regex membership
         if isinstance(v, SBytes):
             if v.length is None:
                 raise Unsupported("truth of abstract bytes")
@@ -348,8 +355,10 @@ class Interp:
                 # equality with a constant is emitted as regex membership: keeps string VCs in the pure InRe fragment
                 ca, cb = self.concrete(a), self.concrete(self.unbase(b))
                 if ca != cb:
-                    var, const = (sb, self.unbase(a)) if ca else (sa, self.unbase(b))
-                    t = z3.InRe(var, z3.Re(z3.StringVal(const)))
+                    from .models.strings import eq_const
+
+                    var, const = (self.unbase(b), self.unbase(a)) if ca else (self.unbase(a), self.unbase(b))
+                    t = eq_const(self, var, const)
                 else:
                     t = sa == sb
                 return SBool(t if meth == "__eq__" else z3.Not(t))
@@ -704,6 +713,11 @@ class Interp:
             sub = self.loader.try_submodule(o, name)
             if sub is not None:
                 return sub
+            if getattr(o, "lazy", False):  # package __init__ that only re-exports: resolve the name through its import statements
+                v = self.loader.lazy_lookup(o, name)
+                if v is not None:
+                    o.g[name] = v
+                    return v
             raise PyRaise(AttributeError(f"module '{o.name}' has no attribute '{name}'"))
         if isinstance(o, PFunc):
             if name in ("__name__", "__qualname__"):
@@ -1238,10 +1252,10 @@ class Interp:
                 return self.setitem(o.base, k, v)
         if isinstance(o, (dict, collections.ChainMap)) and not self.concrete(k):
             zk = self.zstr(k)
-            if zk is None or not all(isinstance(x, str) or x is k for x in o.keys()):
+            if zk is None or not all(self.zstr(x) is not None for x in o.keys()):
                 raise Unsupported("symbolic key into a concrete dict")
             for x in o.keys():  # the symbolic key must be provably different from every key already present
-                if x is not k and solver.check(self.pc + [zk == z3.StringVal(x)], timeout_ms=3000)[0] != "unsat":
+                if x is not k and solver.check(self.pc + [zk == self.zstr(x)], timeout_ms=3000)[0] != "unsat":
                     raise Unsupported("symbolic dict key that may coincide with an existing key")
         try:
             o[k] = v
@@ -1446,6 +1460,10 @@ class Interp:
         if isinstance(x, Sym):
             if spec:
                 raise Unsupported("format spec on symbolic value")
+            return str_of(self, x)
+        if isinstance(x, (list, tuple, dict, set)) and not self.concrete(x):
+            if spec:
+                raise Unsupported("format spec on container with symbolic elements")
             return str_of(self, x)
         try:
             return format(x, spec)
